@@ -281,8 +281,8 @@ private:
         lsf_t lsf;
         lsf.fill(0);
 
-        auto rit = std::copy(source_.begin(), source_.end(), lsf.begin());
-        std::copy(dest_.begin(), dest_.end(), rit);
+        auto rit = std::copy(dest_.begin(), dest_.end(), lsf.begin());
+        std::copy(source_.begin(), source_.end(), rit);
         lsf[12] = 0;
         lsf[13] = 5;
 
